@@ -156,6 +156,10 @@ func actDeriveChild(e *Env, a J) J {
 	err := c.GenerateKeyForChildSA(o.key, []byte(gox(a, "nonce")))
 	obs := errObs(err)
 	if err == nil {
+		e.hold("child ei", c.InitiatorToResponderEncryptionKey)
+		e.hold("child ai", c.InitiatorToResponderIntegrityKey)
+		e.hold("child er", c.ResponderToInitiatorEncryptionKey)
+		e.hold("child ar", c.ResponderToInitiatorIntegrityKey)
 		obs["ei"] = octOf(c.InitiatorToResponderEncryptionKey)
 		obs["ai"] = octOf(c.InitiatorToResponderIntegrityKey)
 		obs["er"] = octOf(c.ResponderToInitiatorEncryptionKey)
@@ -176,6 +180,12 @@ func hashProbe(h hash.Hash, probe []byte) Oct {
 }
 
 func keyObs(k *security.IKESAKey, a J, obs J) {
+	// rendering an SA (logging) is an observation: it changes nothing
+	func() {
+		defer func() { _ = recover() }()
+		_ = k.String()
+		_ = fmt.Sprintf("%v", k)
+	}()
 	obs["sk_d"], obs["sk_ai"], obs["sk_ar"] = octOf(k.SK_d), octOf(k.SK_ai), octOf(k.SK_ar)
 	obs["sk_ei"], obs["sk_er"], obs["sk_pi"], obs["sk_pr"] = octOf(k.SK_ei), octOf(k.SK_er), octOf(k.SK_pi), octOf(k.SK_pr)
 	if p, has := a["probe"]; has {
@@ -312,12 +322,22 @@ func actNewIkeSA(e *Env, a J) J {
 
 // ---------------------------------------------------------------------------------------- Diffie-Hellman, random numbers
 
+// The numbers handed to the group are the caller's objects: they are used for the call and hold the same value afterwards
+// (argsame); the same call made again with the same objects gives the same octets (again).
 func actDhPub(e *Env, a J) J {
 	t := dh.StrToType(dhNames[gi(a, "grp")])
 	if t == nil {
 		return J{"infra": "dh group"}
 	}
-	return J{"pub": octOf(t.GetPublicValue(new(big.Int).SetBytes(gox(a, "x"))))}
+	x := new(big.Int).SetBytes(gox(a, "x"))
+	x0 := new(big.Int).Set(x)
+	pub := t.GetPublicValue(x)
+	e.hold("dh public value", pub)
+	o := J{"pub": octOf(pub)}
+	pub2 := t.GetPublicValue(x)
+	o["again"] = string(pub2) == string(o["pub"].(Oct))
+	o["argsame"] = x.Cmp(x0) == 0
+	return o
 }
 
 func actDhShared(e *Env, a J) J {
@@ -325,7 +345,15 @@ func actDhShared(e *Env, a J) J {
 	if t == nil {
 		return J{"infra": "dh group"}
 	}
-	return J{"shared": octOf(t.GetSharedKey(new(big.Int).SetBytes(gox(a, "x")), new(big.Int).SetBytes(gox(a, "peer"))))}
+	x, y := new(big.Int).SetBytes(gox(a, "x")), new(big.Int).SetBytes(gox(a, "peer"))
+	x0, y0 := new(big.Int).Set(x), new(big.Int).Set(y)
+	sh := t.GetSharedKey(x, y)
+	e.hold("dh shared secret", sh)
+	o := J{"shared": octOf(sh)}
+	sh2 := t.GetSharedKey(x, y)
+	o["again"] = string(sh2) == string(o["shared"].(Oct))
+	o["argsame"] = x.Cmp(x0) == 0 && y.Cmp(y0) == 0
+	return o
 }
 
 func actDhCalc(e *Env, a J) J {
@@ -731,6 +759,26 @@ func actProposalRoundtrip(e *Env, a J) J {
 			obs["prf"], _ = algName("prf", k.PrfInfo)
 			obs["dh"], _ = algName("dh", k.DhInfo)
 			back, err = k.ToProposal()
+			// the same SA object advertises again after its encryption algorithm was changed to another key size: the
+			// second proposal tells the new size (what an object advertises is a function of what it holds now)
+			if alt := gi(a, "alt"); alt != 0 && err == nil {
+				if t := encr.StrToType(encrNames[alt]); t != nil {
+					old := k.EncrInfo
+					k.EncrInfo = t
+					if b2, err2 := k.ToProposal(); err2 == nil && b2 != nil {
+						trs2 := []any{}
+						trs2 = projTransforms(1, b2.EncryptionAlgorithm, trs2)
+						trs2 = projTransforms(2, b2.PseudorandomFunction, trs2)
+						trs2 = projTransforms(3, b2.IntegrityAlgorithm, trs2)
+						trs2 = projTransforms(4, b2.DiffieHellmanGroup, trs2)
+						obs["back2"] = trs2
+					} else {
+						obs["back2"] = "error"
+					}
+					k.EncrInfo = old
+					back, err = k.ToProposal()
+				}
+			}
 		}
 	} else {
 		var c *security.ChildSAKey
